@@ -14,6 +14,7 @@ Not decided: database arithmetic (`/`, `//` numeric results).
 """
 import json
 import os
+import re
 
 from synq import (show_stmts, walk, show, strs, last_seg, pat_alts, pat_head, tail_expr, matches_of, mcalls, calls, macros,
                   lit_val, AnchorMissing)
@@ -615,11 +616,22 @@ def r7(ctx, rep):
         rets = [n for n in walk(body) if n.get("k") == "return"]
         if name == "std.coalesce":
             # null first argument -> second argument
-            ok = False
-            for n in walk(body):
-                if n.get("k") == "if" and n["c"].get("k") == "let" and "Null" in show(n["c"]["pat"]) and show(n["c"]["e"]) == "&args[0].kind":
-                    ok = [show(r.get("e")) for r in walk(n["t"]) if r.get("k") == "return"] == ["args.remove(1)"]
-            rep.check(ok, f"fold:{name}", "`null ?? x` must fold to x (second argument) and only when the FIRST argument is the null literal", file=f["file"], line=line, fn=f["path"])
+            # every folded result: under `if let Null = &args[i].kind` the OTHER argument is returned (`null ?? x` = x, `x ?? null` = x)
+            par = guards.parents(body)
+            found = []
+            for r in rets:
+                cur, under = r, None
+                while id(cur) in par:
+                    pp = par[id(cur)]
+                    if pp.get("k") == "if" and pp["c"].get("k") == "let" and "Null" in show(pp["c"]["pat"]) and (pp["t"] is cur or guards._contains(pp["t"], cur)):
+                        mm = re.match(r"&args\[(\d)\]\.kind$", show(pp["c"]["e"]))
+                        under = int(mm.group(1)) if mm else None
+                        break
+                    cur = pp
+                found.append((under, show(r.get("e"))))
+            ok = bool(found) and all(u in (0, 1) and e == f"args.remove({1 - u})" for u, e in found) and any(u == 0 for u, _ in found)
+            rep.check(ok, f"fold:{name}", f"`??` may be folded only when an argument is the null literal, and then to the OTHER argument (`null ?? x` -> x is required; `x ?? null` -> x is allowed); "
+                      f"found (null argument, result) = {found}", file=f["file"], line=line, fn=f["path"])
             continue
         if spec is None:
             rep.bad(f"fold:{name}", f"folding arm for `{name}` is not covered by the oracle", file=f["file"], line=line, fn=f["path"])
@@ -1008,13 +1020,7 @@ def r11(ctx, rep):
         return e
 
     def locals_of(f):
-        out = []
-        for n in walk(f["body"]):
-            if n.get("k") == "local" and n.get("init") is not None:
-                out.append((n["l"], show(n["pat"]).replace("mut ", ""), n["init"]))
-            if n.get("k") == "assign":
-                out.append((n["l"], show(n["lhs"]), n["rhs"]))
-        return out
+        return guards.parents(f["body"])   # lexical scoping is resolved by guards.visible_defs
 
     def own_strength(kind, node, f):
         """strength of the constructed kind per the extracted tables (int) or None"""
@@ -1060,10 +1066,9 @@ def r11(ctx, rep):
                     return ("own", kind)
             return None
         if e.get("k") == "path" and "::" not in e["p"]:
-            cands = [(l, init) for l, name, init in locs if name == e["p"] and l <= line]
-            if cands:
-                l, init = max(cands, key=lambda x: x[0])
-                return eval_strength(init, locs, l, depth + 1)
+            defs = guards.visible_defs(locs, e, e["p"])
+            if defs:
+                return eval_strength(defs[0], locs, line, depth + 1)
         return None
 
     def operand_origin(e, locs, line, depth=0):
@@ -1083,10 +1088,10 @@ def r11(ctx, rep):
             k = last_seg(e["p"])
             return ("closed", k) if k in CLOSED_CTORS else ("open", k)
         if e.get("k") == "path" and "::" not in e["p"]:
-            cands = [(l, init) for l, name, init in locs if name == e["p"] and l < line]
-            if cands:
+            defs = guards.visible_defs(locs, e, e["p"])
+            if defs:
                 # every reaching definition must be checked (assignments in loops re-define the name)
-                res = [operand_origin(init, locs, l, depth + 1) for l, init in cands if l < line]
+                res = [operand_origin(init, locs, line, depth + 1) for init in defs]
                 worst = [r for r in res if r[0] not in ("operand", "closed")]
                 # a definition that is itself the same open construction (accumulator) is judged at its own site
                 worst = [r for r in worst if r[0] != "open"]
@@ -1124,7 +1129,7 @@ def r11(ctx, rep):
                 if fld not in fields:
                     continue
                 key = f"operand:{f['path']}:{kind}.{fld}"
-                org = operand_origin(fields[fld], locs, n["l"] + 200)
+                org = operand_origin(fields[fld], locs, n["l"])
                 if org[0] == "closed":
                     rep.ok(key, nontrivial=False)
                     continue
